@@ -45,6 +45,9 @@ Crits(s) == Atom(s)
     \cup {[k |-> "not", a |-> c] : c \in Atom(s) \cup {Bin("OR", Bin("=", Fld(s, "a"), Num("1")), Bin("<", Fld(s, "b"), Num("2")))}}
     \cup {[k |-> "in", a |-> Fld(s, "a"), items |-> <<Num("1"), Num("3")>>], [k |-> "between", a |-> Fld(s, "a"), lo |-> Num("1"), hi |-> Num("2")],
           [k |-> "not", a |-> [k |-> "in", a |-> Fld(s, "a"), items |-> <<Num("1"), Num("3")>>]],
+          \* membership in an EMPTY list (false for every row, NULL included; its negation true for every row)
+          [k |-> "in", a |-> Fld(s, "b"), items |-> <<>>], [k |-> "not", a |-> [k |-> "in", a |-> Fld(s, "b"), items |-> <<>>]],
+          Bin("OR", [k |-> "not", a |-> [k |-> "in", a |-> Fld(s, "b"), items |-> <<>>]], Bin("=", Fld(s, "a"), Num("1"))),
           Bin("<", Bin("-", Fld(s, "a"), Num("-1")), Num("3")), Bin("=", Bin("*", Fld(s, "a"), Bin("/", Fld(s, "b"), Num("2"))), Num("0")),
           Bin(">", Fld(s, "b"), [k |-> "neg", a |-> Fld(s, "a")])}
 
